@@ -240,6 +240,28 @@ def check_properties(prop, allowed_axioms):
     return res
 
 
+def coqchk(prop, timeout=1500):
+    """coqchk -o on the compiled property file (re-checks it and every .vo it depends on, stdlib included, with the independent
+    checker) -> ok, the axioms of the checked context, and the three 'relying on' sections (all must be <none>)"""
+    t0 = time.time()
+    try:
+        r = subprocess.run(["coqchk", "-silent", "-o", "-Q", ".", "SX", f"SX.Properties.{prop}"], cwd=COQ, stdout=subprocess.PIPE,
+                           stderr=subprocess.STDOUT, text=True, timeout=timeout)
+        out, rc = r.stdout, r.returncode
+    except subprocess.TimeoutExpired:
+        out, rc = "TIMEOUT", 1
+    def section(title):
+        m = re.search(re.escape(title) + r":?\s*(.*?)(?:\n\s*\n|\Z)", out, flags=re.S)
+        return [l.strip() for l in m.group(1).splitlines() if l.strip()] if m else ["?"]
+    ax = section("* Axioms")
+    tit = section("* Constants/Inductives relying on type-in-type")
+    unsafe = section("* Constants/Inductives relying on unsafe (co)fixpoints")
+    pos = section("* Inductives whose positivity is assumed")
+    clean = all(x == ["<none>"] for x in (tit, unsafe, pos))
+    return {"ok": rc == 0 and clean, "axioms": [a for a in ax if a != "<none>"], "tit": tit, "unsafe": unsafe, "pos": pos,
+            "log": out, "seconds": round(time.time() - t0, 1)}
+
+
 def coq_eval(ctx, name, text, timeout=900):
     """compile a scratch cases file against the built development; returns (ok, stdout)"""
     path = os.path.join(ctx.work, name + ".v")
